@@ -114,7 +114,11 @@ func (w *writer) newline() {
 		lt = "\r\n"
 	}
 	w.raw(lt)
-	w.raw(strings.Repeat(" ", w.ind*(1+w.tape.next(3))+w.tape.next(4)))
+	unit := " "
+	if w.tape.next(4) == 3 {
+		unit = "\t" // a tab is one column, like any other character
+	}
+	w.raw(strings.Repeat(unit, w.ind*(1+w.tape.next(3))+w.tape.next(4)))
 }
 
 var asciiWords = []string{"c", "note", "x y", "call()", "a.b", "1:2"}
